@@ -137,6 +137,10 @@ def canon(e):
             # dict(a=1, b=2) and {'a': 1, 'b': 2} are the same value
             if isinstance(n.func, ast.Name) and n.func.id == 'dict' and not n.args and n.keywords and all(k.arg is not None for k in n.keywords):
                 return ast.Dict(keys=[ast.Constant(k.arg) for k in n.keywords], values=[k.value for k in n.keywords])
+            # tuple(e for ..) and tuple([e for ..]) build the same value (the consumer exhausts its argument at once)
+            if isinstance(n.func, ast.Name) and n.func.id in ('tuple', 'list', 'set', 'frozenset', 'sorted', 'sum', 'min', 'max', 'dict') and len(n.args) >= 1 \
+                    and isinstance(n.args[0], ast.GeneratorExp):
+                n.args[0] = ast.ListComp(elt=n.args[0].elt, generators=n.args[0].generators)
             return n
 
         def visit_Compare(self, n):
